@@ -77,7 +77,7 @@ def _undoc(dumps):
     def fix(m):
         v = ast.literal_eval(m.group(1))
         return 'Expr(value=Constant(value=' + repr('\n'.join(l.lstrip() for l in v.split('\n'))) + '))'
-    return None if dumps is None else [re.sub(r"^Expr\(value=Constant\(value=('(?:[^'\\]|\\.)*'|\"(?:[^\"\\]|\\.)*\")\)\)$", fix, d) for d in dumps]
+    return None if dumps is None else [re.sub(r"Expr\(value=Constant\(value=('(?:[^'\\]|\\.)*'|\"(?:[^\"\\]|\\.)*\")\)\)", fix, d) for d in dumps]
 
 
 def _norm_str_tok(k, v):
